@@ -185,7 +185,7 @@ def doStep (p : Pars) (ti simTi : Rat) (d : Draws) (s : State) : Except Err Stat
     `burn` supplies the inputs of those extra steps (oldest first). -/
 def burnSteps (p : Pars) : List Int :=
   let lo := (-p.durPreg).ceil
-  (List.range (0 - lo).toNat).map (fun k => lo + (k : Int))
+  (List.range (0 - lo).toNat).map (fun (k : Nat) => lo + (k : Int))
 
 def runBurn (p : Pars) (simTi : Rat) : List Int → List Draws → State → Except Err State
   | [], _, s => .ok s
